@@ -5,7 +5,7 @@ from fractions import Fraction
 import numpy as np
 
 import gen
-from core import fr, w_rat, w_rats, w_bool, p_rats, cmp_exact, cmp_budget, call_impl
+from core import fr, w_rat, w_rats, w_bool, p_rats, cmp_exact, cmp_budget, call_impl, w_floats, p_floats
 
 PROP_MODULES = ['C14', 'C14Gen', 'C14GenInterp', 'C14Resample']
 EXHAUSTIVE = True
@@ -17,9 +17,11 @@ RULE = ("corpus (F14-1 witness n=33/.01/.09/even, decimal pairs .3/.1 .06/.02 .0
         "band-limited periodic signals), the gen_response_spectrum consumer. The impl decides factor==1/ceil/floor on the binary64 "
         "quotient: that decision is replicated on the same float operations and handed to the model; histogram counts the pairs whose "
         "float and exact decisions differ. distinct = hash of (record, dt, target, even); non-trivial = length >= 3 and not constant")
-TIE = ('translator (factor rule of both functions regenerated from eqsig/fns/time_step.py, rfl bridge to the model) + correspondence')
-NOT_PROVED = ["C14.f (Fourier resampling reproduces band-limited periodic signals): kind S, evaluated numerically (1e-9 of the amplitude) on "
-              "impl executions; scipy.signal.resample is external",
+TIE = ('translator (factor rule, refined grid / point count and resampled length regenerated from eqsig/fns/time_step.py, bridged to the model) + correspondence (incl. the model of scipy.signal.resample)')
+NOT_PROVED = ["C14.f is PROVED about the executable model of scipy.signal.resample (Props/C14Resample: resample_bandlimited, _closed, "
+              "resample_nyquist_cosine, resample_retains_samples, …); what remains assumed: that SciPy's fft/ifft/rfft/irfft compute the DFT "
+              "sums the model is written with (the model is compared with scipy.signal.resample at 1e-9 of the amplitude on every run, "
+              "observed gap ~1e-14) and rounding",
               "rounding of np.interp's slope form (values may leave the input range by an ulp; budget R) and of the abscissae i/factor: for "
               "1/factor = 49 the binary64 quotients i/fl(1/49) are not the integers 49*i, so decimation is a subsequence only to within "
               "rounding there (counted in the histogram, compared with slack 1e-12)",
@@ -354,6 +356,18 @@ def run(ctx):
             ctx.oracle('C14.f resample_to_approx_dt returns for a band-limited periodic record', False, inputs, detail=rr, facts=facts)
             return
         got = rr[1].values
+        # correspondence with the Lean model of scipy.signal.resample (Model/Resample.lean, the object of theorem resample_bandlimited): the
+        # O(N*M) DFT model at Cx Float on the same record and output length; 1e-9 of the amplitude; imaginary parts must vanish
+        if N * len(got) <= 40000 and len(got) >= 1:
+            def cmp_resample(outs, val, amp=amp):
+                re, imv = p_floats(outs[0]), p_floats(outs[1])
+                if len(re) != len(val):
+                    return f'length model={len(re)} impl={len(val)}'
+                d = max([abs(x - y) for x, y in zip(re, val)] + [abs(z) for z in imv] + [0.0])
+                ctx.gap('scipy.signal.resample vs Model.Resample (rel. amplitude)', d / amp)
+                return None if d <= 1e-9 * amp else f'max deviation {d:.3e} > 1e-9 * {amp}'
+            ctx.corr('scipy.signal.resample (through resample_to_approx_dt)', f"resample|{len(got)}|{w_floats(a)}", ('ok', [float(x) for x in got]),
+                     cmp_resample, inputs=inputs)
         t = np.arange(len(got)) * rr[1].dt        # the instants the returned signal claims
         want = sig(t / (N * dt))
         err = float(np.max(np.abs(got - want))) if len(got) else 0.0
@@ -561,3 +575,247 @@ def known_witness(fid):
         t = np.arange(r[1].npts) * r[1].dt
         return not float(np.max(np.abs(r[1].values - np.cos(2 * math.pi * 3 * t / (N * 0.01))))) <= 1e-9
     return True
+
+
+# ---- extras2 (harness extension hx_b): defaults / positional forms, containers and numeric types, exact scaling of values and of time,
+# ---- large interpolation instances ---------------------------------------------------------------------------------------------------
+
+def _x2_options(ctx, cur):
+    """(3) documented defaults (target_dt=0.01, even=True) and positional forms of all three entry points; (4) the record in any container /
+    dtype and the two steps in any numeric type"""
+    import eqsig
+    from eqsig.fns import time_step as ts
+    from _hxb_common import same, val, light_history
+    rng = ctx.rng
+    for it in range(60 if ctx.tier == 'quick' else 600):
+        n = gen.log_int(rng, 2, 90)
+        whole = it % 2 == 0
+        a = gen.int_record(rng, n, -9, 9) if whole else gen.noise_record(rng, n)
+        dt = rng.choice([0.01, 0.005, 0.02, 0.0025, 0.03, 0.07, 0.1, 0.25, 1.0])
+        target = rng.choice([0.01, 0.01, dt, dt * 2, dt / 3, 0.004, 0.03, 0.5])
+        even = rng.random() < 0.5
+        inputs = {'values': a, 'dt': dt, 'target_dt': target, 'even': even}
+        cur.clear()
+        cur.update(inputs)
+        ctx.hist('extras2/options')
+        ctx.count_case(('x2o', a.tobytes(), dt, target, even), gen.nontrivial_record(a))
+        ref = val(call_impl(ts.interp_array_to_approx_dt, a, dt, target_dt=target, even=even))
+        if ref is None:
+            continue
+        forms = [('positional', lambda: ts.interp_array_to_approx_dt(a, dt, target, even), ref),
+                 ('even omitted (default True)', lambda: ts.interp_array_to_approx_dt(a, dt, target_dt=target), ts.interp_array_to_approx_dt(a, dt, target_dt=target, even=True)),
+                 ('target_dt omitted (default 0.01)', lambda: ts.interp_array_to_approx_dt(a, dt, even=even), ts.interp_array_to_approx_dt(a, dt, target_dt=0.01, even=even)),
+                 ('both omitted', lambda: ts.interp_array_to_approx_dt(a, dt), ts.interp_array_to_approx_dt(a, dt, target_dt=0.01, even=True))]
+        for nm, f, want in forms:
+            g = val(call_impl(f))
+            ctx.oracle('C14 interp_array_to_approx_dt: documented defaults / positional form give the result of the explicit call (%s)' % nm,
+                       g is not None and len(g) == 2 and same(g[0], want[0]) and g[1] == want[1], inputs, detail={'new_dt': None if g is None else g[1], 'want': want[1]})
+        for fn_name, fn in (('interp_to_approx_dt', ts.interp_to_approx_dt), ('resample_to_approx_dt', ts.resample_to_approx_dt)):
+            mk = lambda: light_history(ctx, eqsig.AccSignal, a, dt)   # noqa: E731
+            pairs = [('positional', lambda: fn(mk(), target, even), lambda: fn(mk(), target_dt=target, even=even)),
+                     ('even omitted (default True)', lambda: fn(mk(), target_dt=target), lambda: fn(mk(), target_dt=target, even=True)),
+                     ('target_dt omitted (default 0.01)', lambda: fn(mk(), even=even), lambda: fn(mk(), target_dt=0.01, even=even)),
+                     ('both omitted', lambda: fn(mk()), lambda: fn(mk(), target_dt=0.01, even=True))]
+            for nm, f, w in pairs:
+                g, want = call_impl(f), call_impl(w)
+                ok = g[0] == want[0] and (g[0] != 'ok' or (same(g[1].values, want[1].values) and g[1].dt == want[1].dt and g[1].npts == want[1].npts
+                                                           and type(g[1]).__name__ == 'AccSignal'))
+                ctx.oracle('C14 %s: documented defaults / positional form give the result of the explicit call (%s)' % (fn_name, nm), ok, inputs,
+                           detail={'got': g[1] if g[0] != 'ok' else (g[1].npts, g[1].dt), 'want': want[1] if want[0] != 'ok' else (want[1].npts, want[1].dt)})
+            ctx.last_object_history = None
+        # Signal (not only AccSignal) objects: same record
+        for fn_name, fn in (('interp_to_approx_dt', ts.interp_to_approx_dt),):
+            g = call_impl(fn, light_history(ctx, eqsig.Signal, a, dt), target_dt=target, even=even)
+            ctx.oracle('C14 interp_to_approx_dt(Signal) == array-level result', g[0] == 'ok' and same(g[1].values, ref[0]) and g[1].dt == ref[1], inputs)
+            ctx.last_object_history = None
+        if it % 2 == 0:
+            for lab, c in gen.container_variants(a):
+                ctx.hist('extras2/container/' + lab)
+                snap = np.array(c)
+                g = val(call_impl(ts.interp_array_to_approx_dt, c, dt, target_dt=target, even=even))
+                ctx.oracle('C14 interp_array_to_approx_dt does not depend on the container or dtype holding the record', g is not None and same(g[0], ref[0])
+                           and g[1] == ref[1] and np.asarray(g[0]).dtype == np.float64, {**inputs, 'container': lab})
+                ctx.oracle('C14 interp_array_to_approx_dt leaves its input array unchanged', same(np.array(c), snap) and np.array(c).dtype == snap.dtype,
+                           {**inputs, 'container': lab})
+                if isinstance(c, np.ndarray):
+                    go = call_impl(ts.interp_to_approx_dt, eqsig.AccSignal(c, dt), target_dt=target, even=even)
+                    ctx.oracle('C14 interp_to_approx_dt does not depend on the dtype of the record the signal was built from', go[0] == 'ok' and
+                               same(go[1].values, ref[0]) and go[1].dt == ref[1], {**inputs, 'container': lab})
+        if it % 3 == 0:
+            d2, t2 = rng.choice([(1, 2), (2, 1), (1, 1), (4, 1), (1, 3), (3, 2)])
+            want = ts.interp_array_to_approx_dt(a, float(d2), target_dt=float(t2), even=even)
+            for lab, conv in (('int', int), ('np.int64', np.int64), ('np.float32', np.float32), ('np.float64', np.float64), ('Fraction', Fraction)):
+                g = call_impl(ts.interp_array_to_approx_dt, a, conv(d2), target_dt=conv(t2), even=even)
+                if lab == 'Fraction' and g[0] == 'err':
+                    continue        # exotic numeric types may be rejected loudly
+                if lab == 'np.float32' and 3 in (d2, t2):
+                    continue        # single-precision steps: the quotient 1/3 and the abscissae i/fl32(1/3) are rounded in single precision (rounding regime)
+                ctx.oracle('C14 interp_array_to_approx_dt does not depend on the numeric type of dt and target_dt', g[0] == 'ok' and same(g[1][0], want[0])
+                           and float(g[1][1]) == float(want[1]), {**inputs, 'dt': d2, 'target_dt': t2, 'numeric type': lab},
+                           detail=g[1] if g[0] != 'ok' else {'new_dt': float(g[1][1]), 'want': float(want[1]), 'len': len(g[1][0]), 'want len': len(want[0])})
+
+
+def _x2_scale(ctx, cur):
+    """(2) the output values are of degree 1 in the record (exact for power-of-two factors up to 2^+-600), the rule depends only on dt/target
+    so scaling BOTH steps by 2^k leaves the values unchanged and scales the returned step exactly ('all (dt, target_dt) pairs')"""
+    import eqsig
+    from eqsig.fns import time_step as ts
+    from _hxb_common import same, val
+    rng = ctx.rng
+    for it in range(40 if ctx.tier == 'quick' else 400):
+        n = gen.log_int(rng, 2, 120)
+        kind, a = gen.any_record(rng, n)
+        dt = gen.any_dt(rng)
+        target = dt * rng.choice([1, 2, 3, 5, 0.5, 1 / 3, 0.2, 7, 0.37, 2.9, 10 ** rng.uniform(-1, 1)])
+        even = rng.random() < 0.5
+        inputs = {'values': a, 'dt': dt, 'target_dt': target, 'even': even}
+        cur.clear()
+        cur.update(inputs)
+        ctx.hist('extras2/scale/' + kind)
+        base = val(call_impl(ts.interp_array_to_approx_dt, a, dt, target_dt=target, even=even))
+        rbase = call_impl(ts.resample_to_approx_dt, eqsig.AccSignal(a, dt), target_dt=target, even=even)
+        if base is None:
+            continue
+        for k in gen.EXTREME_POW2:
+            f = 2.0 ** k
+            ctx.count_case(('x2s', k, a.tobytes(), dt, target, even), True)
+            sc = {**inputs, 'scale': '2**%d' % k}
+            with np.errstate(all='ignore'):
+                g = val(call_impl(ts.interp_array_to_approx_dt, a * f, dt, target_dt=target, even=even))
+                go = call_impl(ts.interp_to_approx_dt, eqsig.AccSignal(a * f, dt), target_dt=target, even=even)
+                h = val(call_impl(ts.interp_array_to_approx_dt, a, dt * f, target_dt=target * f, even=even))
+                ho = call_impl(ts.interp_to_approx_dt, eqsig.AccSignal(a, dt * f), target_dt=target * f, even=even)
+            ctx.oracle('C14 interpolation is linear in the record: scaling the values by a power of two scales the output exactly, same step', g is not None and
+                       gen.scaled_exactly(g[0], base[0], f) and g[1] == base[1] and go[0] == 'ok' and gen.scaled_exactly(go[1].values, base[0], f) and go[1].dt == base[1], sc)
+            ctx.oracle('C14.a the rule depends on dt/target only: scaling both steps by a power of two keeps the values and scales the returned step exactly',
+                       h is not None and same(h[0], base[0]) and h[1] == base[1] * f and ho[0] == 'ok' and same(ho[1].values, base[0]) and ho[1].dt == base[1] * f,
+                       sc, detail={'new_dt': None if h is None else h[1], 'want': base[1] * f})
+            if rbase[0] == 'ok':
+                with np.errstate(all='ignore'):
+                    r1 = call_impl(ts.resample_to_approx_dt, eqsig.AccSignal(a * f, dt), target_dt=target, even=even)
+                    r2 = call_impl(ts.resample_to_approx_dt, eqsig.AccSignal(a, dt * f), target_dt=target * f, even=even)
+                ctx.oracle('C14 Fourier resampling is linear in the record: scaling the values by a power of two scales the output exactly, same step',
+                           r1[0] == 'ok' and gen.scaled_exactly(r1[1].values, rbase[1].values, f) and r1[1].dt == rbase[1].dt, sc)
+                ctx.oracle('C14.a Fourier resampling: scaling both steps by a power of two keeps the values and scales the returned step exactly',
+                           r2[0] == 'ok' and same(r2[1].values, rbase[1].values) and r2[1].dt == rbase[1].dt * f, sc)
+
+
+def _x2_large(ctx, cur):
+    """(1) records of 5 000 - 60 000 samples refined by 2..10 or decimated by 2..8 (one job with 150 000 - 600 000 output samples): all clauses with NumPy in
+    O(n); the Fourier variant on long NOISE records (a record is the sampling of its own trigonometric interpolant, so an integer refinement
+    that keeps the period returns the original samples at their instants)"""
+    import eqsig
+    from eqsig.fns import time_step as ts
+    from _hxb_common import same, val, light_history
+    rng = ctx.rng
+    quick = ctx.tier == 'quick'
+    jobs = [('refine', rng.choice([5000, 8192, 20000]), rng.choice([2, 3, 10])), ('refine', rng.choice([30000, 60000]), rng.choice([5, 10])),
+            ('decimate', rng.choice([10000, 32768, 60000]), rng.choice([2, 4, 8])), ('decimate', rng.choice([5001, 20000]), rng.choice([3, 5, 7]))]
+    if not quick:
+        jobs += [(b, n, k) for b in ('refine', 'decimate') for n in (4096, 4097, 65536, 100000) for k in (2, 3)]
+    for branch, n, k in jobs:
+        seed = rng.randrange(2 ** 31)
+        g = np.random.default_rng(seed)
+        dyadic = rng.random() < 0.5
+        a = g.integers(-64, 65, size=n) / 8.0 if dyadic else g.standard_normal(n)
+        dt = rng.choice([0.01, 0.005, 0.02, 0.25, 1.0])
+        target = dt / (k - 0.3) if branch == 'refine' else dt * (k + 0.4)
+        even = rng.random() < 0.5
+        desc = {'generator': 'c14._x2_large: integers(-64,65)/8 if dyadic else standard_normal', 'dyadic': dyadic, 'n': n, 'numpy_seed': seed, 'dt': dt, 'target_dt': target,
+                'even': even, 'branch': branch, 'factor': k}
+        cur.clear()
+        cur.update(desc)
+        ctx.hist('extras2/large/' + branch)
+        ctx.count_case(('x2l', n, seed, dt, target, even), True, sample=desc)
+        fdec, fobj = float_decision(dt, target)
+        snap = a.copy()
+        r = call_impl(ts.interp_array_to_approx_dt, a, dt, target_dt=target, even=even)
+        if r[0] != 'ok':
+            ctx.oracle('C14 (large) interp_array_to_approx_dt returns on its domain', False, desc, detail=r)
+            continue
+        out, new_dt = np.asarray(r[1][0]), r[1][1]
+        L = len(out)
+        peak = float(np.max(np.abs(a)))
+        ctx.oracle('C14 (large) interp_array_to_approx_dt leaves its input array unchanged', same(a, snap), desc)
+        want_dt = dt / k if branch == 'refine' else dt / (1 / np.floor(1 / (dt / target)))
+        ctx.oracle('C14.a (large) returned step <= target and dt/new_dt is the integer ceil(dt/target) resp. the reciprocal of floor(target/dt)',
+                   new_dt <= target and fdec == (k if branch == 'refine' else Fraction(1, k)) and new_dt == want_dt, desc, detail={'new_dt': new_dt, 'want': want_dt})
+        L_e, L_f = exact_len(n, fdec, even), float_len(n, fobj, even)[0]
+        ctx.oracle('C14.b/c (large) length = k*n (refinement), ceil(n/m) (decimation), 2*trunc(./2) when even', L in (L_e, L_f), desc, detail={'len': L, 'exact': L_e, 'float': L_f})
+        if even:
+            ctx.oracle('C14.d (large) length is even when requested', L % 2 == 0, desc)
+        ctx.oracle('C14.b/c (large) values never leave the input range (one-ulp slack)', L > 0 and float(out.min()) >= float(a.min()) - 1e-15 * peak and
+                   float(out.max()) <= float(a.max()) + 1e-15 * peak, desc)
+        if branch == 'refine':
+            m = min(n, (L + k - 1) // k)
+            ctx.oracle('C14.b (large) refinement: original samples reappear unchanged at their instants (out[k*i] == x[i])', same(out[::k][:m], a[:m]), desc)
+            j = np.arange(L)
+            i0 = np.minimum(j // k, n - 1)
+            i1 = np.minimum(i0 + 1, n - 1)
+            want = a[i0] + (a[i1] - a[i0]) * ((j % k) / k)
+            dev = float(np.max(np.abs(out - want)))
+            # the abscissae j/k are rounded (error <= ulp(n)/2) before np.interp multiplies by the local slope (<= 2*peak per sample)
+            tol = 8 * n * 2.0 ** -52 * peak + 1e-15 * peak
+            ctx.oracle('C14.b (large) refinement: output is the piecewise-linear interpolant, last value held (%s)' % ('exact: multiples of 1/8, k = 2' if dyadic and k in (2,) else 'to the rounding of the abscissae j/k: 8 n 2^-52 of the peak'),
+                       dev == 0.0 if dyadic and k == 2 else dev <= tol, desc, detail={'max_dev': dev, 'tol': tol})
+        else:
+            idx = np.arange(L) * k
+            ok = bool(np.all(idx < n)) and (same(out, a[idx]) if k in (2, 4, 8) else bool(np.max(np.abs(out - a[idx])) <= 1e-9 * peak))
+            ctx.oracle('C14.c (large) decimation: output is a subsequence of the input (out[j] == x[j*m]; exactly for m a power of two, to 1e-9 of the peak otherwise)', ok, desc)
+        dur_change = abs((L - 1) * new_dt - (n - 1) * dt)
+        if branch == 'refine' or not even:
+            ctx.oracle('C14.d (large) covered duration changes by less than two steps', dur_change < 2 * max(dt, new_dt), desc, detail={'change': dur_change})
+        else:
+            ctx.oracle('C14.d (large) [decimation, even=True] covered duration changes by less than three new steps (the proved bound)', dur_change < 3 * new_dt * (1 + 1e-12), desc,
+                       detail={'change': dur_change})
+        ro = call_impl(ts.interp_to_approx_dt, light_history(ctx, eqsig.AccSignal, a, dt), target_dt=target, even=even)
+        ctx.oracle('C14 (large) object-level interp_to_approx_dt == array-level interp_array_to_approx_dt (values, dt, npts)', ro[0] == 'ok' and same(ro[1].values, out) and
+                   ro[1].dt == new_dt and ro[1].npts == L, desc)
+        ctx.last_object_history = None
+        for lab, c in gen.container_variants(a * 8 if dyadic else a, arrays_only=True):
+            f = 8.0 if dyadic else 1.0
+            g2 = val(call_impl(ts.interp_array_to_approx_dt, c, dt, target_dt=target, even=even))
+            ctx.oracle('C14 (large) interp_array_to_approx_dt does not depend on the dtype / memory layout of the record', g2 is not None and gen.scaled_exactly(g2[0], out, f)
+                       and g2[1] == new_dt, {**desc, 'container': lab, 'values multiplied by': f})
+        with np.errstate(all='ignore'):
+            kk = rng.choice([600, -600])
+            g3 = val(call_impl(ts.interp_array_to_approx_dt, a * 2.0 ** kk, dt * 2.0 ** -kk, target_dt=target * 2.0 ** -kk, even=even))
+        ctx.oracle('C14 (large) exact covariance: values x 2^k and both steps x 2^-k', g3 is not None and gen.scaled_exactly(g3[0], out, 2.0 ** kk) and g3[1] == new_dt * 2.0 ** -kk,
+                   {**desc, 'k': kk})
+    # Fourier variant on long noise records
+    for n, k in ([(rng.choice([5000, 8192]), 2), (rng.choice([9973, 20000, 30011]), 3)] if quick else [(5000, 2), (8192, 2), (9973, 3), (20000, 3), (30011, 2), (65536, 2), (60000, 5)]):
+        seed = rng.randrange(2 ** 31)
+        a = np.random.default_rng(seed).standard_normal(n)
+        dt = rng.choice([0.01, 0.02, 0.5])
+        even = (n * k) % 2 == 0 and rng.random() < 0.7
+        desc = {'generator': 'c14._x2_large resample: standard_normal(n)', 'n': n, 'numpy_seed': seed, 'dt': dt, 'target_dt': dt / (k - 0.3), 'even': even, 'factor': k}
+        cur.clear()
+        cur.update(desc)
+        ctx.hist('extras2/large/resample')
+        ctx.count_case(('x2lr', n, seed, dt, k, even), True, sample=desc)
+        asig = light_history(ctx, eqsig.AccSignal, a, dt)
+        rr = call_impl(ts.resample_to_approx_dt, asig, target_dt=dt / (k - 0.3), even=even)
+        ok = rr[0] == 'ok' and rr[1].npts == k * n and rr[1].dt == dt / k
+        dev = None
+        if ok:
+            dev = float(np.max(np.abs(np.asarray(rr[1].values)[::k] - a)))
+            ok = dev <= 1e-9 * float(np.max(np.abs(a)))
+        ctx.oracle('C14.f (large) integer refinement by Fourier resampling: step dt/k, k*npts samples, and the original samples (the sampling of a band-limited '
+                   'periodic signal) are reproduced at their instants to 1e-9 of the peak', ok, desc,
+                   detail=rr if rr[0] != 'ok' else {'npts': rr[1].npts, 'dt': rr[1].dt, 'max_dev': dev})
+        ctx.oracle('C14 (large) resample_to_approx_dt leaves the signal unchanged', same(asig.values, a) and asig.dt == dt, desc)
+        ctx.last_object_history = None
+
+
+def extras2(ctx):
+    from _hxb_common import guarded_sections
+    guarded_sections(ctx, 'C14', [('options', _x2_options), ('scale', _x2_scale), ('large', _x2_large)])
+
+
+_run_main2 = run
+
+
+def run(ctx):
+    _run_main2(ctx)
+    extras2(ctx)
+    ctx.flush()
